@@ -261,15 +261,33 @@ type SexpArray struct {
 	Env *Zlisp
 }
 
+// maxArrayTypeNesting bounds how deep Type() follows arrays of arrays of
+// arrays...: an array can be made to contain itself ((aset a 0 a)), and
+// typing it must not recurse for ever (stack exhaustion kills the process;
+// BindSymbol types the old and the new value of every rebinding).
+const maxArrayTypeNesting = 64
+
 func (r *SexpArray) Type() *RegisteredType {
+	return r.typeWithin(maxArrayTypeNesting)
+}
+
+func (r *SexpArray) typeWithin(budget int) *RegisteredType {
 	if len(r.Val) > 0 {
 		// take type from first element, every time: rest, slice,
 		// append, map and keys hand the Typ of their source (or an
 		// element type) to the array they build, and aset replaces
 		// elements in place, so a remembered Typ may describe
 		// contents this array does not have.
+		var ty *RegisteredType
+		if sub, isArray := r.Val[0].(*SexpArray); isArray {
+			// beyond the budget the array has no type
+			if budget > 0 {
+				ty = sub.typeWithin(budget - 1)
+			}
+		} else {
+			ty = r.Val[0].Type()
+		}
 		r.Typ = nil
-		ty := r.Val[0].Type()
 		if ty != nil {
 			r.Typ = GoStructRegistry.GetOrCreateSliceType(ty)
 		}
